@@ -124,11 +124,18 @@ def build_cadence(stg, c):
         t = fr.t_stop
     if c.get('reverse'):
         frames = frames[::-1]          # the cadence's first frame is the LATEST observation: offsets are negative
+    # the overwrite flag as callers have it: a Python bool, a numpy bool (the result of a comparison), or 0 / 1
+    tov = c['t_overwrite']
+    form = c['sub'] % 3
+    if form == 1:
+        tov = np.bool_(tov)
+    elif form == 2:
+        tov = int(tov)
     if c['ordered']:
         order = 'ABACADAEAF'[:max(len(frames), 1)]
-        cad = stg.OrderedCadence(frames, order=order, t_slew=c['t_slew'], t_overwrite=c['t_overwrite'])
+        cad = stg.OrderedCadence(frames, order=order, t_slew=c['t_slew'], t_overwrite=tov)
     else:
-        cad = stg.Cadence(frames, t_slew=c['t_slew'], t_overwrite=c['t_overwrite'])
+        cad = stg.Cadence(frames, t_slew=c['t_slew'], t_overwrite=tov)
     return cad, frames
 
 
